@@ -154,6 +154,17 @@ Theorem C07_master_curve_views_time_shift : forall d offsets crossings grid step
 Proof. exact ViewsShiftSpec.view_average_time_shift. Qed.
 Print Assumptions C07_master_curve_views_time_shift.
 
+(** ... in particular for the tables the writers produce from one solver result
+    when every interval starts d later (the re-based times that go into the
+    solver are the same by C07_rebased_times_origin_free). *)
+Theorem C07_written_view_time_shift : forall d (start_of : nat -> Z) hm sids offs grid step,
+  Views.view_average (Views.written_offsets (fun s => (start_of s + d)%Z) sids offs)
+                     (Views.written_crossings (fun s => (start_of s + d)%Z) hm) grid step
+  = Views.view_average (Views.written_offsets start_of sids offs)
+                       (Views.written_crossings start_of hm) grid step.
+Proof. exact ViewsShiftSpec.written_view_time_shift. Qed.
+Print Assumptions C07_written_view_time_shift.
+
 Example C07_view_shift_example :
   Views.view_average (ViewsShiftSpec.shift_offset_keys 7 [(100, Qmake 3 1); (200, Qmake 8 1)]%Z)
                      (ViewsShiftSpec.shift_crossing_keys 7 [(100, 1, Qmake 8 1); (200, 1, Qmake 3 1); (200, 2, Qmake 1 1)]%Z)
